@@ -152,5 +152,110 @@ def run(F):
         else:
             r.inst("spec|ChemicalPotential-identity", where, "violation")
             r.fail("spec|ChemicalPotential-identity", where, "DFTSpecifications::ChemicalPotential no longer returns the bulk density argument unchanged")
+    # ---------------- (c) an initial guess never supplies a *specified* temperature / pressure
+    n_guess = guess_frame(F, r)
+    r.floor("solver entry points with an initial-guess parameter", n_guess, 3)
     r.exhaustive = True
     return [r]
+
+
+def derived_params(b, defs, local, seen=None):
+    """parameters a value is derived from, through copies, refs, field reads and the arguments of *any* call"""
+    if seen is None:
+        seen = set()
+    out = set()
+    work = [local]
+    while work:
+        l = work.pop()
+        if l in seen:
+            continue
+        seen.add(l)
+        ds = defs.of(l)
+        if 1 <= l <= b["arg_count"]:
+            out.add(l)
+        for d in ds:
+            if d[0] == "call":
+                for a in d[2]["args"]:
+                    if a.get("k") in ("copy", "move"):
+                        work.append(a["place"]["l"])
+            else:
+                rv = d[4]
+                ops = []
+                if rv["k"] in ("use", "cast", "repeat"):
+                    ops = [rv["op"]]
+                elif rv["k"] in ("ref", "discr"):
+                    work.append(rv["place"]["l"])
+                elif rv["k"] == "binop":
+                    ops = [rv["a"], rv["b"]]
+                elif rv["k"] == "unop":
+                    ops = [rv["a"]]
+                elif rv["k"] == "agg":
+                    ops = rv["ops"]
+                for o in ops:
+                    if o.get("k") in ("copy", "move"):
+                        work.append(o["place"]["l"])
+    return out
+
+
+def guess_frame(F, r):
+    """Functions of the phase-equilibrium module that take an initial guess (Option<&PhaseEquilibrium> / &PhaseEquilibrium
+    named by type) together with a *specified* temperature and/or pressure (a parameter of that type, or — for methods of
+    State — the feed state's own T and p): no argument of the specified quantity's type may be derived from the guess."""
+    t_ty = p_ty = None
+    for c, a in F.items("adts"):
+        if a["path"] == "feos_core::state::State":
+            for f in a["variants"][0]["fields"]:
+                if f["name"] == "temperature":
+                    t_ty = f["ty"]
+    for b in F.bodies:
+        if b.path.endswith("state::residual_properties::<impl state::State<E>>::pressure") or b.path.endswith("::<impl state::State<E>>::pressure"):
+            p_ty = b.lty(0)["s"]
+    if not t_ty or not p_ty:
+        r.fail("guess|types", "-", "Temperature / Pressure types could not be determined")
+        return 0
+    n = 0
+    for b in F.bodies:
+        if b.is_closure() or b.crate != "feos_core" or "phase_equilibria" not in b.path:
+            continue
+        nargs = b["arg_count"]
+        guess = [l for l in range(1, nargs + 1) if "PhaseEquilibrium<" in b.lty(l)["s"] and b.lty(l)["s"].startswith(("std::option::Option<&", "&")) and l != 1]
+        if not guess:
+            continue
+        spec_types = set()
+        for l in range(1, nargs + 1):
+            s_ = b.lty(l)["s"]
+            if s_ == t_ty:
+                spec_types.add(t_ty)
+            if s_ == p_ty:
+                spec_types.add(p_ty)
+        if b.lty(1)["s"].startswith("&") and "state::State<" in b.lty(1)["s"] and b.lname(1) == "self":
+            spec_types |= {t_ty, p_ty}      # the feed state fixes both
+        if not spec_types:
+            continue
+        n += 1
+        defs = Defs(b)
+        bad = []
+        for bi, t in b.calls():
+            # only calls that build / re-initialise states or equilibria (their result type says so)
+            rty = b.pty(t["dest"])["s"]
+            if "state::State<" not in rty and "PhaseEquilibrium<" not in rty and "StateBuilder<" not in rty:
+                continue
+            for a in t["args"]:
+                if a.get("k") not in ("copy", "move"):
+                    continue
+                ty = b.opty(a)
+                if not ty or ty["s"] not in spec_types:
+                    continue
+                dp = derived_params(b, defs, a["place"]["l"])
+                if dp & set(guess):
+                    bad.append((t["span"], "temperature" if ty["s"] == t_ty else "pressure", callee(t)[2]))
+        fn = b.path.split("::")[-1]
+        iid = "guess|%s" % fn
+        if bad:
+            r.inst(iid, bad[0][0], "violation")
+            r.fail("guess|%s|%s-from-initial-state" % (fn, bad[0][1]), bad[0][0],
+                   "%s: a %s passed to %s() is derived from the initial-guess parameter although the %s is specified — the returned "
+                   "equilibrium would sit at the guess's %s instead of the specified one" % (fn, bad[0][1], bad[0][2], bad[0][1], bad[0][1]))
+        else:
+            r.inst(iid, b.file_line(), "ok", specified=sorted("T" if x == t_ty else "p" for x in spec_types))
+    return n
